@@ -247,7 +247,8 @@ def oracle (obs : List (List String × String)) : Verdict :=
               if Spec.C09.holdsOnConc tr calls then
                 let overl := calls.any fun a => calls.any fun b => !a.same b && a.inv < b.ret && b.inv < a.ret
                 { ok := true, nontrivial := true,
-                  tags := tags ++ ["conc"] ++ (if overl then ["conc:overlapping"] else []) }
+                  tags := tags ++ ["conc"] ++ (if overl then ["conc:overlapping"] else []) ++
+                    (if Spec.C09.sizeRacy tr calls then ["conc:size-racy"] else []) }
               else if Spec.C09.lostWriteRacingDelete tr calls then
                 Verdict.fail s!"lost-write-racing-delete:op#{tr.length}" (tags ++ ["conc"])
               else Verdict.fail s!"non-linearizable-history:op#{tr.length}" (tags ++ ["conc"])
